@@ -36,3 +36,37 @@ Definition span_of_source (s : span_source) (p : parts) : sp :=
 
 (* the label of the diagnostic raised for an error of kind k at a construct with these parts *)
 Definition diag_span (k : err_kind) (p : parts) : sp := span_of_source (err_span_source k) p.
+
+(* ------------------------------------------------------------------ which identifiers of an expression are looked up
+   Evaluator::evaluate_expression: a factor that is an identifier is looked up (and tracked as a usage: unresolved ones
+   enter CodegenContext::undefined); parentheses / flags / modifiers evaluate their inner expression; a binary expression
+   evaluates lhs, then rhs, then applies the operator (Gen.ErrSpans.binary_evaluates_both, shape-checked on every run):
+   `&&` and `||` do not short-circuit.  (An evaluation ERROR in lhs -- overflow etc. -- ends the evaluation with that
+   error; the statement is rejected anyway.) *)
+From Coq Require Import List NArith.
+Import ListNotations.
+Inductive uexpr :=
+| ULit                              (* number / string / current pc *)
+| UIdent (path : N)                 (* an identifier path (abstracted to a number) *)
+| UWrap (inner : uexpr)             (* parentheses, `!`, `-`, `<`, `>` *)
+| UCall (args : list uexpr)         (* a function call evaluates all its arguments; defined(..) forgets only its own *)
+| UBin (lhs rhs : uexpr).           (* any binary operator, && and || included *)
+
+Fixpoint tracked (e : uexpr) : list N :=
+  match e with
+  | ULit => []
+  | UIdent p => [p]
+  | UWrap i => tracked i
+  | UCall args => (fix go (l : list uexpr) := match l with [] => [] | a :: r => tracked a ++ go r end) args
+  | UBin l r => tracked l ++ (if binary_evaluates_both then tracked r else [])
+  end.
+
+(* the identifier occurs in the expression outside the argument list of a call *)
+Fixpoint mentions (p : N) (e : uexpr) : Prop :=
+  match e with
+  | ULit => False
+  | UIdent q => q = p
+  | UWrap i => mentions p i
+  | UCall _ => False
+  | UBin l r => mentions p l \/ mentions p r
+  end.
